@@ -146,8 +146,6 @@ class Walker(ast.NodeVisitor):
                                     ' && '.join(c for c in self.conds if not c.startswith('for result'))))
         # sentinel write: random[-8:] = TLS_1_x_DOWNGRADE_SENTINEL
         if isinstance(node.value, ast.Name) and node.value.id.endswith('DOWNGRADE_SENTINEL'):
-            self.guard_sites.append((self.fname, self._fn(), 'sentinel_write', src(t0) + ' = ' + node.value.id,
-                                     ' && '.join(c for c in self.conds if not c.startswith('for result')), ''))
             self._mark(node, 'sentinel_write')
         if isinstance(t0, ast.Name) and t0.id in ('cipherSuites', 'wireCipherSuites') \
                 and self._fn() == '_clientSendClientHello':
@@ -168,11 +166,20 @@ class Walker(ast.NodeVisitor):
                 return 'raise ' + src(e.func if isinstance(e, ast.Call) else e)
         return 'none'
 
+    @staticmethod
+    def _writes_sentinel(node):
+        for x in ast.walk(node):
+            if isinstance(x, ast.Assign) and isinstance(x.targets[0], ast.Subscript) \
+                    and isinstance(x.value, ast.Name) and x.value.id.endswith('DOWNGRADE_SENTINEL'):
+                return True
+        return False
+
     def _guard_if(self, node, t):
         kind = None
-        if 'DOWNGRADE_SENTINEL' in t:
-            kind = 'sentinel_check'
-        elif 'TLS_FALLBACK_SCSV' in t and 'clientHello' in t:
+        if 'DOWNGRADE_SENTINEL' in src(node) and not self._writes_sentinel(node):
+            # position only; WHAT the check decides is extracted semantically (sentinel_check_table)
+            self._mark(node, 'sentinel_check')
+        if 'TLS_FALLBACK_SCSV' in t and 'clientHello' in t:
             kind = 'scsv_check'
         elif 'clientHello1' in t and ('!=' in t or '==' in t):
             kind = 'hrr_second_hello_compare'
@@ -184,6 +191,164 @@ class Walker(ast.NodeVisitor):
             self.guard_sites.append((self.fname, self._fn(), kind, t, self._reaction(node),
                                      ' && '.join(c for c in self.conds if not c.startswith('for result'))))
             self._mark(node, kind)
+
+
+
+# ------------------------------------------------------------------------------------------
+# semantic extraction: the sentinel decision regions are EXECUTED over their whole finite domain, so that any
+# behaviour-preserving rewrite of them yields the same table (and any behavioural change a different one)
+VERSIONS = [(3, 0), (3, 1), (3, 2), (3, 3), (3, 4)]
+S11 = bytes.fromhex('444f574e47524400')
+S12 = bytes.fromhex('444f574e47524401')
+
+
+class _Abort(Exception):
+    def __init__(self, desc):
+        Exception.__init__(self, desc)
+        self.desc = desc
+
+
+class _Stub(object):
+    """anything the region touches besides what the table is about"""
+
+    def __init__(self, **kw):
+        self.__dict__.update(kw)
+
+    def __getattr__(self, k):
+        if k.startswith('__'):
+            raise AttributeError(k)
+        return _Stub()
+
+    def __call__(self, *a, **kw):
+        return None
+
+    def __bool__(self):
+        return False
+
+    def __iter__(self):
+        return iter(())
+
+
+def _func(tree, name):
+    for n in ast.walk(tree):
+        if isinstance(n, (ast.FunctionDef, ast.AsyncFunctionDef)) and n.name == name:
+            return n
+    raise Refuse('function %s not found' % name)
+
+
+def _calls(node, attr):
+    return any(isinstance(x, ast.Call) and isinstance(x.func, ast.Attribute) and x.func.attr == attr for x in ast.walk(node))
+
+
+def _module_globals():
+    import importlib
+    m = importlib.import_module('tlslite.tlsconnection')
+    return dict(vars(m))
+
+
+def _tailcode(t):
+    t = bytes(t)
+    return 1 if t == S11 else 2 if t == S12 else 0
+
+
+def sentinel_check_rows(tree):
+    """_handshakeClientAsyncHelper: everything between the call of _clientGetServerHello and the first branch into
+    _clientTLS13Handshake / _clientResume / _clientKeyExchange, run for every (maxVersion, negotiated version, tail)."""
+    fn = _func(tree, '_handshakeClientAsyncHelper')
+    body = fn.body
+    a = next((i for i, st in enumerate(body) if _calls(st, '_clientGetServerHello')), None)
+    b = next((i for i, st in enumerate(body) if a is not None and i > a and
+              any(_calls(st, c) for c in ('_clientTLS13Handshake', '_clientResume', '_clientKeyExchange'))), None)
+    if a is None or b is None:
+        raise Refuse('anchors of the client sentinel region not found')
+    region = body[a + 1:b]
+    f = ast.FunctionDef(name='__region__',
+                        args=ast.arguments(posonlyargs=[], args=[ast.arg(arg=x) for x in
+                                                                 ('self', 'settings', 'result', 'session', 'clientHello')],
+                                           kwonlyargs=[], kw_defaults=[], defaults=[]),
+                        body=list(region) + [ast.Expr(ast.Yield(ast.Constant('__END__')))], decorator_list=[])
+    mod = ast.Module(body=[f], type_ignores=[])
+    ast.fix_missing_locations(mod)
+    g = _module_globals()
+    exec(compile(mod, '<client sentinel region>', 'exec'), g)
+    rows = []
+    for cmax in VERSIONS:
+        for v in VERSIONS:
+            for tail in (S11, S12, bytes(8)):
+                def send_error(desc, msg=None):
+                    raise _Abort(int(desc))
+                    yield None
+                me = _Stub(version=v, _sendError=send_error)
+                st = _Stub(maxVersion=cmax, minVersion=(3, 0), versions=[x for x in VERSIONS if x <= cmax])
+                sh = _Stub(random=bytearray(24) + bytearray(tail), cipher_suite=0x9d, server_version=min(v, (3, 3)),
+                           getExtension=lambda t: None)
+                try:
+                    for _ in g['__region__'](me, st, sh, _Stub(), _Stub()):
+                        pass
+                    rows.append((cmax, v, _tailcode(tail), False, 0))
+                except _Abort as e:
+                    rows.append((cmax, v, _tailcode(tail), True, e.desc))
+                except Exception as e:  # noqa
+                    raise Refuse('client sentinel region not executable: %r' % (e,))
+    return rows
+
+
+def _blocks(node):
+    for x in ast.walk(node):
+        for fld in ('body', 'orelse', 'finalbody'):
+            b = getattr(x, fld, None)
+            if isinstance(b, list) and b and isinstance(b[0], ast.stmt):
+                yield b
+
+
+def sentinel_write_rows(tree):
+    """every TLS <= 1.2 ServerHello construction (X.create(version, random, ...) whose version is not the constant
+    (3, 3)): the statements that build its random argument, run for every (maxVersion, version)."""
+    rows, fns = [], []
+    for fname in ('_handshakeServerAsyncHelper', '_serverGetClientHello'):
+        fn = _func(tree, fname)
+        for block in _blocks(fn):
+            for i, st in enumerate(block):
+                if not (isinstance(st, ast.Expr) and isinstance(st.value, ast.Call) and
+                        isinstance(st.value.func, ast.Attribute) and st.value.func.attr == 'create' and
+                        src(st.value.func.value) in ('serverHello', 'server_hello') and len(st.value.args) >= 2):
+                    continue
+                ver, rnd = st.value.args[0], st.value.args[1]
+                if src(ver) == '(3, 3)':
+                    continue                      # TLS 1.3 ServerHello / HelloRetryRequest: no sentinel
+                if isinstance(rnd, ast.Name):
+                    j = next((k for k in range(i - 1, -1, -1) if isinstance(block[k], ast.Assign) and
+                              isinstance(block[k].targets[0], ast.Name) and block[k].targets[0].id == rnd.id), None)
+                    if j is None:
+                        raise Refuse('%s: cannot find where %s is built' % (fname, rnd.id))
+                    region, ret = block[j:i], ast.Name(id=rnd.id, ctx=ast.Load())
+                else:
+                    region, ret = [], rnd
+                f = ast.FunctionDef(name='__wregion__',
+                                    args=ast.arguments(posonlyargs=[], args=[ast.arg(arg=x) for x in
+                                                                             ('self', 'version', 'settings', 'getRandomBytes')],
+                                                       kwonlyargs=[], kw_defaults=[], defaults=[]),
+                                    body=list(region) + [ast.Return(ret)], decorator_list=[])
+                mod = ast.Module(body=[f], type_ignores=[])
+                ast.fix_missing_locations(mod)
+                g = _module_globals()
+                exec(compile(mod, '<server sentinel region>', 'exec'), g)
+                fns.append(fname)
+                for smax in VERSIONS:
+                    for v in VERSIONS:
+                        if v > smax or v > (3, 3):
+                            continue
+                        st2 = _Stub(maxVersion=smax, minVersion=(3, 0))
+                        try:
+                            r = g['__wregion__'](_Stub(version=v), v, st2, lambda n: bytearray(n))
+                            rows.append((fname, smax, v, _tailcode(bytes(r)[-8:])))
+                        except Exception as e:  # noqa
+                            raise Refuse('%s: ServerHello random region not executable: %r' % (fname, e))
+    return rows, fns
+
+
+def vz(v):
+    return v[0] * 256 + v[1]
 
 
 class Sites(object):
@@ -200,6 +365,9 @@ class Sites(object):
             for a in ANCHOR_FUNCS[rel]:
                 if a not in names:
                     raise Refuse('anchor function %s missing from %s' % (a, rel))
+            if rel.endswith('tlsconnection.py'):
+                self._check_rows = sentinel_check_rows(tree)
+                self._write_rows, self._write_fns = sentinel_write_rows(tree)
             w = Walker(rel)
             w.visit(tree)
             hs += w.hash_sites
@@ -209,11 +377,14 @@ class Sites(object):
             sus += w.suite_sites
             # position facts: per function, the order of the marked statements
             for fn in sorted(w.order):
-                marks = [t for _, t in sorted(w.order[fn])]
+                marks = []
+                for _, t in sorted(w.order[fn]):
+                    if not marks or marks[-1] != t:          # consecutive repeats carry no information
+                        marks.append(t)
                 if any(t in ('sentinel_write', 'sentinel_check', 'scsv_check') for t in marks):
                     pos.append((rel, fn, ' < '.join(marks)))
         out = ['(* GENERATED by translator/units_c04.py from %s -- do not edit *)' % 'tlslite (ast walk)',
-               'From Coq Require Import List String.', 'Import ListNotations.', 'Open Scope string_scope.', '']
+               'From Coq Require Import ZArith List String.', 'Import ListNotations.', 'Open Scope string_scope.', 'Open Scope Z_scope.', '']
         out.append('Definition hash_sites : list (string * string * string * string * string) := [')
         out.append(';\n'.join('  (%s, %s, %s, %s, %s)' % tuple(sl(x) for x in r) for r in hs))
         out.append('].\n')
@@ -229,6 +400,14 @@ class Sites(object):
         out.append('Definition client_hello_sites : list (string * string * string * string * string * string) := [')
         out.append(';\n'.join('  (%s, %s, %s, %s, %s, %s)' % tuple(sl(x) for x in r) for r in chs))
         out.append('].\n')
+        out.append('Definition sentinel_check_table : list (Z * Z * Z * bool * Z) := [')
+        out.append(';\n'.join('  (%d, %d, %d, %s, %d)' % (vz(a), vz(b), c, 'true' if d else 'false', e)
+                              for a, b, c, d, e in self._check_rows))
+        out.append('].\n')
+        out.append('Definition sentinel_write_table : list (string * Z * Z * Z) := [')
+        out.append(';\n'.join('  (%s, %d, %d, %d)' % (sl(a), vz(b), vz(c), d) for a, b, c, d in self._write_rows))
+        out.append('].\n')
+        out.append('Definition sentinel_write_functions : list string := [' + '; '.join(sl(x) for x in self._write_fns) + '].\n')
         out.append('Definition client_suite_sites : list (string * string * string * string) := [')
         out.append(';\n'.join('  (%s, %s, %s, %s)' % tuple(sl(x) for x in r) for r in sus))
         out.append('].')
